@@ -276,8 +276,8 @@ func c03Run(c C03Case, record bool) (*pbt.Violation, c03Stats) {
 			in := gen.Mut{Kind: "set32", Off: r.Off, Val: val}.Apply(doc)
 			st.huge++
 			for i, e := range c03Entries {
-				if !c03NoAlloc[e.name] {
-					continue
+				if !c03NoAlloc[e.name] || (e.name == "skip" && c.Tree.Type != rn.Compound) {
+					continue // (a non-compound root is decoded, not skipped, even into struct{}: it allocates by length)
 				}
 				st.calls++
 				if v := c03OneOpt(in, c.Network, e, typed, strct, i%2 == 0, false); v != nil {
